@@ -185,23 +185,24 @@ claim("C03",
 
 # Addenda: rules added or cross-registered after the independently seeded changes (DESIGN §8).
 _EXTRA = {
- "C01": " Added after the seeded changes: (R-TXN-9) every EncodeView in Commit is preceded by Truncate(0)+Seek(0) on the same file; (R-TXN-10) the auto-committing entry point is not reachable from ExecuteStatement; (R-ORD-1) the per-table counts that gate 'uncommitted' marking are filled by the same loop as their tables. (R-SIG-1) signals stay routed to the cancel function until the deferred rollback and release have run.",
+ "C01": " Added after the seeded changes: (R-TXN-9) every EncodeView in Commit is preceded by Truncate(0)+Seek(0) on the same file; (R-TXN-10) the auto-committing entry point is not reachable from ExecuteStatement; (R-ORD-1) the per-table counts that gate 'uncommitted' marking are filled by the same loop as their tables. (R-SIG-1) signals stay routed to the cancel function until the deferred rollback and release have run. (R-PUB-1) the write-back covers every updatable view type.",
  "C02": " Added after the seeded changes: (R-FMT-7) a grow-and-replace of a loaded record list keeps every element; (R-TXN-9) the file is rewound before each encode. (R-FMT-8) a loader records the detected line break only when one was detected (sibling agreement).",
  "C03": " Added after the seeded changes: (R-REL-6) every success return of OuterJoin lies behind the FULL test; (R-ISO-2) inline tables / CTEs are handed out as copies.",
  "C04": " Also (R-PAR-1): the key-generation workers share no buffer. Added after the seeded changes: (R-KEY-6) the strict / loose key choice is made in one place under a test of StrictEqual; (R-SRT-4) a cached sort value is filed under the column it was computed from.",
- "C05": " Also (R-ISO-4): no store into a cell shared with other views (UPDATE builds new cells); (R-CNT-2) the per-table counts of multi-table UPDATE / DELETE count distinct records (set size, or a counter guarded by a first-seen test).",
+ "C05": " Also (R-ISO-4): no store into a cell shared with other views (UPDATE builds new cells); (R-CNT-2) the per-table counts of multi-table UPDATE / DELETE count distinct records (set size, or a counter guarded by a first-seen test). (R-PUB-1) the write-back of every data-changing statement covers every updatable view type (file, temporary table, stdin) — finite evaluation of the FileInfo predicates over the ViewType constants.",
  "C09": " Also (R-CACHE-1): the first update access to a table loaded by a plain SELECT re-reads it under the exclusive lock.",
- "C10": " Added after the seeded changes: (R-SWAP-4) the original descriptor Handler.fp is never written or truncated; (R-TXN-9) rewind before encode.",
- "C07": " Also (R-SRT-4): cached sort values are filed under the row and column they were computed from.",
+ "C10": " Added after the seeded changes: (R-SWAP-4) the original descriptor Handler.fp is never written or truncated; (R-TXN-9) rewind before encode. (R-SWAP-5) a taint analysis of the table path: an existing table is never opened for writing, truncated, written or renamed away — it is only the target of os.Rename; (R-SWAP-2, new clause) a ForUpdate commit succeeds only through that rename.",
+ "C07": " Also (R-SRT-4): cached sort values are filed under the row and column they were computed from. Added after the second round of seeded changes: (R-SRT-5) a typestate analysis follows the view through the SELECT pipeline and proves that the per-row sort-value caches are nil or aligned with the rows wherever they are read (two genuine defects found: OFFSET did not shift the keys that LIMIT … WITH TIES reads — repaired; more than 100 PERCENT kept 100 rows — R-LIM-4, repaired); (R-LIM-4) no literal other than 0 reaches a row bound; (R-POOL-2) OFFSET / LIMIT release only their own temporaries.",
  "C11": " Added after the seeded changes: (R-SIG-1) signal.Stop is deferred so that it runs after the deferred rollback / forced release; a second signal during clean-up cannot kill the process.",
+ "C14": " R-POOL-2 also covers deferred releases (double release through defer + explicit Discard).",
  "C12": " Added after the seeded changes: (R-PAR-7) no aggregate / analytic implementation starts goroutines (sequential reductions, no float reassociation).",
  "C13": " Added later: (R-PAR-4) scope constructors called in regions give each goroutine fresh lock-free helpers (field-index caches; genuine defect repaired); (R-PAR-6) the plain-map fields shared by all scopes are accessed only under viewLoadingMutex.",
- "C15": " Added after the seeded changes: (R-SCP-7) a '… is redeclared' error is guarded only by tests on the current block (genuine defect in DeclareView repaired).",
+ "C15": " Added after the seeded changes: (R-SCP-7) a '… is redeclared' error is guarded only by tests on the current block (genuine defect in DeclareView repaired). (R-PAR-1) concurrent invocations of a user-defined aggregate share no argument buffer.",
  "C16": " Added after the seeded changes: (R-CUR-6) every no-row exit of Fetch parks the pointer on −1 or the record count.",
- "C17": " Also (R-PAR-1): the partition workers of Analyze share no scratch buffer. (R-SRT-4) cached sort values are filed under their own column.",
+ "C17": " Also (R-PAR-1): the partition workers of Analyze share no scratch buffer. (R-SRT-4) cached sort values are filed under their own column. (R-SRT-5) the per-cell sort-value cache shared by analytic functions, DISTINCT and ORDER BY is dropped whenever the rows are replaced.",
  "C18": " Added after the seeded changes: (R-SCAN-1) every read of Scanner.src is bounds-guarded; (R-ESC-3) no printer of a syntax-tree node uses a child's raw Identifier.Literal.",
  "C19": " Added later: (R-ERR-8) no method call on a possibly-nil interface in a type-switch default (genuine defect repaired); (R-SCAN-1) scanner reads are bounds-guarded; (R-FMT-7) grow-and-replace keeps every element.",
- "C20": " Added after the seeded changes: (R-TXN-10) statements that run statements do not re-enter the auto-committing entry point.",
+ "C20": " Added after the seeded changes: (R-TXN-10) statements that run statements do not re-enter the auto-committing entry point. (R-POOL-2) built-in functions release only their own temporaries, never a cell of the cached table.",
 }
 for _p, _t in _EXTRA.items():
     if _p in CLAIMS:
